@@ -3,69 +3,91 @@
 T = "Kani/CBMC bounded model checking of the real code (symbolic inputs, SAT), native replay of counterexamples"
 
 CLAIMED = {
+    "C02": {"design_ref": "5/C02", "technique": T,
+            "text": "Solver-decided for the quantifier reduction only: any() = some element true, all() = every element true, "
+                    "all() of the empty sequence true, for every boolean sequence up to 4 elements. Indexing, map-each, "
+                    "flattening, element-wise logic and truncation are NOT covered (LhsValue containers in compiled closures)."},
+    "C07": {"design_ref": "5/C07", "technique": T,
+            "text": "Solver-decided token tables (every alias maps to its operator, both aliases of a pair to the same one, "
+                    "exactly the alias consumed, for all short ASCII inputs) and the C-API hash writer's independence from "
+                    "how the JSON bytes are chunked. Whitespace independence, the JSON documents and flattening are NOT covered."},
+    "C12": {"design_ref": "5/C12", "technique": T,
+            "text": "Solver-decided one-step kernels: the walk of every node kind visits exactly its children, in order, "
+                    "through the right visitor method (a dropped child or a skipped argument is caught). The composition of "
+                    "steps over whole trees and name resolution are NOT covered."},
     "C01": {"design_ref": "5/C01", "technique": T,
-            "text": "Solver-decided for ALL values within the bound, but only for the operator kernels: OrderingOp::matches/"
-                    "matches_opt against the mathematical meaning for every pair of i64 and every operator, the per-family "
-                    "IP ordering (mixed families unordered, only != holds) for every pair of addresses, and the mask table. "
-                    "A wrong table entry or family rule is caught with a concrete counterexample; composition (closures, "
-                    "nil default, connectives, precedence) is not covered because AST code is out of CBMC's reach here."},
+            "text": "Solver-decided for ALL values within the bounds: the closures the real compile function builds for every "
+                    "ordering operator on Int (all i64 pairs), Ip (all address pairs, mixed families) and Bytes (value <= 3 "
+                    "bytes vs literal <= 2), the bitwise-and test and the bare boolean, together with the default chosen for an "
+                    "absent left side (false, != = nil-not-equal setting) - reached by executing "
+                    "ComparisonExpr::compile_with_compiler with its continuation IndexExpr::compile_with stubbed; the real "
+                    "plain-field closure of IndexExpr::compile_with on a real context (absent => default); the operator "
+                    "tables and the derived precedence order. Parser precedence on whole expressions and the execution of "
+                    "composed not/and/or/xor closures are NOT covered (out of CBMC's reach, DESIGN 3.2)."},
     "C03": {"design_ref": "5/C03", "technique": T,
-            "text": "Solver-decided kernels only: the per-call FunctionDefinitionContext (every accessor reaches the same "
-                    "stored object, for every stored value) and ExactSizeChain (supplied arguments first, defaults after, "
-                    "exact len) for all contents up to 2+2 items. Call compilation/map-each/concat are AST code and not covered."},
+            "text": "Solver-decided kernels: every accessor of the per-call FunctionDefinitionContext reaches the same stored "
+                    "object (found a genuine defect); ExactSizeChain order and exact length; the real "
+                    "SimpleFunctionDefinition::compile closure gives omitted optional parameters their own defaults in order, "
+                    "for all default and argument values. Argument compilation, map-each application and concat are NOT covered."},
     "C04": {"design_ref": "5/C04", "technique": T,
             "text": "Solver-decided parameter-typing kernel: check_param / expect_val_type / kind checks agree with the "
                     "documented rule for every (declared type, actual type, kind, constant-vs-variable) over an 8-type pool "
-                    "including nested containers. The lexers that apply the rules are not covered."},
+                    "including nested containers. The lexers that apply the other typing rules are NOT covered."},
     "C05": {"design_ref": "5/C05", "technique": T,
             "text": "Solver-decided span/slicing kernels on ALL ASCII inputs up to 3 characters (take, take_while, span, "
-                    "skip_space, expect, complete) and ParseError::new on all inputs up to 2 (thorough 3-4) characters over "
-                    "{LF, space, a} with every sub-span: no panic, line/column inside the input. Whole-parser totality is not covered."},
+                    "skip_space, expect, complete), ParseError::new on all inputs up to 2 (thorough 3-4) characters over "
+                    "{LF, space, a} with every sub-span (no panic, line/column inside the input) and the default nesting "
+                    "limit. Whole-parser totality, stack depth and Display are NOT covered."},
     "C06": {"design_ref": "5/C06", "technique": T,
-            "text": "Solver-decided decoder kernels on ALL ASCII inputs within the bound: \\xHH accepted iff two hex digits "
-                    "(this found the '+' sign defect), \\OOO iff three octal digits <= 377, byte separators, raw-string "
-                    "delimiter scan up to 3 (thorough 5) characters. Other literal forms (integers, IPs, indexes) are not covered."},
+            "text": "Solver-decided on ALL inputs within the bounds: \\xHH accepted iff two hex digits (found the '+' sign "
+                    "defect), \\OOO iff three octal digits <= 377, byte separators, the raw-string delimiter scan (<= 3, thorough "
+                    "5 characters); and the rules the real IntRange / FieldIndex / IpRange lexers apply to the values returned "
+                    "by their (stubbed) leaf lexers: a..b accepted iff a <= b for all i64 pairs, an index accepted iff "
+                    "0 <= n <= 2^32-1, an address range iff same family and ordered, CIDR bounds. Digit and address TEXT, "
+                    "quoted strings as a whole and hex-pair strings are NOT covered."},
     "C09": {"design_ref": "5/C09", "technique": T,
-            "text": "Solver-decided set kernels at full machine width: RangeSet::from + contains equals 'some range contains x' "
-                    "for every list of 3 i64 ranges (thorough 5), 3 IPv4 ranges, 2 IPv6 ranges (thorough 3) and every probe; "
-                    "result is sorted and disjoint; empty list contains nothing. Longer lists, the compile-time family split and "
-                    "byte-string sets are not covered."},
+            "text": "Solver-decided at full machine width: the comparator the real compile function builds for `in {..}` on "
+                    "integers (range, value, range), on addresses (IPv4 CIDR + explicit IPv6 range + single address, incl. "
+                    "IPv4-mapped probes: family split and CIDR conversion) and on byte strings (two items) equals 'some listed "
+                    "item equals or contains x', absent x => false; RangeSet::from + contains for every list of 3 i64 / 3 IPv4 "
+                    "/ 2 IPv6 ranges (thorough up to 5) and every probe; the empty list. Longer lists and list TEXT are NOT covered."},
     "C10": {"design_ref": "5/C10", "technique": T,
-            "text": "Solver-decided for the SIMD search the engine delegates to (sliceslice Avx2Searcher<[u8;N]>), for every "
-                    "needle content, EVERY anchor position 1..N, every haystack content and length within small sizes "
-                    "(N=2 hay<=5, N=3 hay<=6; thorough up to N=4 hay<=8 / N=2 hay<=10), against naive search; plus EmptySearcher. "
-                    "The engine's own dispatch and 16/32-byte block boundaries are not covered."},
+            "text": "Solver-decided: the engine's own `contains` arm (length dispatch over all 15 array sizes, anchor drawn "
+                    "inside 1..len, empty pattern) with the SIMD bit and the random anchor made symbolic by two counted "
+                    "rewrites, and the delegated sliceslice Avx2Searcher for every needle, EVERY anchor position and every "
+                    "haystack within small sizes, against naive search. 16/32-byte block boundaries, needles > 4 in long "
+                    "haystacks, the memchr/memmem paths and the USE_AVX2 latch are NOT covered."},
     "C11": {"design_ref": "5/C11", "technique": T,
-            "text": "Solver-decided wildcard wiring: Wildcard::<false/true>::new + is_match agree with the documented semantics "
-                    "for every pattern of 1-2 (thorough 3) bytes over {a,A,*,?,\\}, every value up to 2 (3) arbitrary bytes and "
-                    "every star limit; rejection iff **, too many stars or bad escape. Regex matching is not covered."},
+            "text": "Solver-decided wildcard semantics: Wildcard::<false/true>::new + is_match agree with the documented "
+                    "semantics for every pattern of 1-2 (thorough 3) bytes over {a,A,*,?,\\}, every value up to 2 (3) bytes "
+                    "and every star limit; validation of every 4-byte pattern (** anywhere, escapes, star limit); the compile "
+                    "arms fold case only for the non-strict flavour; nested parsers keep the configured limits. Everything "
+                    "about `matches` (regex) is NOT covered."},
     "C13": {"design_ref": "5/C13", "technique": T,
-            "text": "Solver-decided counter kernel only: with_increased_nesting for every (depth, limit) in u16 x u16, "
-                    "d-fold nesting accepted iff d <= limit for every limit and d <= 9, default 128, setters/getters. "
-                    "Whether each construct's call site increments is NOT covered."},
+            "text": "Solver-decided counter kernel: with_increased_nesting for every (depth, limit) in u16 x u16 keeps every "
+                    "setting, d-fold nesting accepted iff d <= limit for every limit (d <= 9; thorough: 300 steps across the "
+                    "255/256 boundary), default 128, setters/getters. Whether each construct's call site increments is NOT covered."},
     "C15": {"design_ref": "5/C15", "technique": T,
-            "text": "Solver-decided packed type form: Type <-> CompoundType round trip for every layer string up to 32 layers "
-                    "and every primitive, push/pop one step from any valid state (33rd layer refused), injectivity up to 8 layers. "
-                    "JSON forms and scheme JSON are not covered (serde is out of reach)."},
+            "text": "Solver-decided packed type forms: Type <-> CompoundType round trip for every layer string up to 32 layers "
+                    "and every primitive, push/pop one step from any valid state (33rd layer refused), the checked conversion "
+                    "used by deserialization, injectivity up to 8 layers, and the C-side CType packing against the engine's "
+                    "(one step from any state; <= 3 layers end to end). JSON forms and scheme JSON are NOT covered (serde)."},
     "C17": {"design_ref": "5/C17", "technique": T,
-            "text": "Solver-decided built-in matchers: always-list matches and never-list rejects every Int/Bool/Ip/Bytes value "
-                    "(this found the AlwaysList defect), also through new_matcher() and after clear(). Delegation from compiled "
-                    "filters, list-name lexing and serde are not covered."},
+            "text": "Solver-decided: `x in $name` compiled by the real InList arm returns exactly the answer of the matcher "
+                    "installed for that list, asked once with the name and the value, and false for an absent x; the built-in "
+                    "always/never matchers on every Int/Bool/Ip/Bytes value (found the AlwaysList defect), also through "
+                    "new_matcher() and after clear(); the list-name lexer on all 2-character names. Per-type list lookup at "
+                    "parse time and matcher state across serde are NOT covered."},
     "C20": {"design_ref": "5/C20", "technique": T,
-            "text": "Solver-decided last-error buffer: one append from ANY valid state (inductive step, so sequences of any "
-                    "length) keeps exactly one terminating NUL, no interior NUL, content = old ++ buf with NUL->0x1A, through "
-                    "both Write impls; clear/NULL-iff-empty. The wirefilter_* wrappers are not covered."},
+            "text": "Solver-decided last-error machinery: one append from ANY valid buffer state (inductive step) keeps exactly "
+                    "one terminating NUL, no interior NUL, content = old ++ buf with NUL->0x1A through both Write impls; a "
+                    "second failure replaces the message, clear gives NULL; result constants; C-side type packing. The "
+                    "wirefilter_* wrappers' equivalence with the Rust API is NOT covered."},
 }
 
 NOT_APPLICABLE = {
-    "C02": "indexing/map-each/any-all operate on LhsValue arrays/maps and AST nodes; the smallest instance (one index into a "
-           "flat array of <= 2 ints) exhausts 7.5 GB in CBMC, a 2x2 one times out (DESIGN 3.2); no data-only kernel remains",
-    "C07": "subject is text -> AST -> JSON; symbolic text beyond 4 characters and AST/serde code are both out of CBMC's reach "
-           "here (DESIGN 3.2); there is no data-only kernel",
     "C08": "ExecutionContext is Box<[Option<LhsValue>]> behind Arc<SchemeBuilder>: one set + one get on a 2-field context "
            "times out (840 s); nothing decidable remains",
-    "C12": "pure AST walking: five formulations down to a root over two leaves did not decide (heap-allocated enum tags are "
-           "not constant-folded by CBMC, so every match arm is entered at every node)",
     "C14": "serde_json on symbolic bytes, BTreeMap-backed maps and erased_serde trait objects are out of reach (DESIGN 3.2)",
     "C16": "two registrations of one name with symbolic kinds time out (hashbrown SSE2 group probing, Arc<str> keys, boxed "
            "definitions); lookups and the identifier lexer go through the same map",
